@@ -125,10 +125,10 @@ impl TranscriptProtocol for Transcript {
         let mut buf = [0u8; 64];
         self.challenge_bytes(label, &mut buf);
 
-        let challenge = Scalar::from_bytes_mod_order_wide(&buf);
         #[cfg(feature = "verif-hooks")]
-        verif_hooks::record(label, &challenge);
-        challenge
+        verif_hooks::record(label, &Scalar::from_bytes_mod_order_wide(&buf));
+
+        Scalar::from_bytes_mod_order_wide(&buf)
     }
 }
 
